@@ -1988,11 +1988,16 @@ fn shrink_expr(e: &Expr, out: &mut Vec<Expr>) {
             for x in sub(c) {
                 out.push(Expr::If(b(x), t.clone(), f.clone()));
             }
+            // the branches of an `if` stay blocks
             for x in sub(t) {
-                out.push(Expr::If(c.clone(), b(x), f.clone()));
+                if matches!(x, Expr::Block(_)) {
+                    out.push(Expr::If(c.clone(), b(x), f.clone()));
+                }
             }
             for x in sub(f) {
-                out.push(Expr::If(c.clone(), t.clone(), b(x)));
+                if matches!(x, Expr::Block(_)) {
+                    out.push(Expr::If(c.clone(), t.clone(), b(x)));
+                }
             }
         }
         Expr::Block(ss) => {
